@@ -15,3 +15,12 @@ def job_bindings(doc):
     import z3
 
     return {"bad": bad, "z3": z3.get_version_string(), "repo": seams.REPO_PREFIX}
+
+
+def job_addresses(doc):
+    """Addresses of a few freshly allocated objects (probe for the reproducibility of id())."""
+    from parser.Wrappers import parseQuery
+
+    a = [id(object()) & 0xFFFFFF for _ in range(3)]
+    qs = [id(list(parseQuery(t).values())[0]) & 0xFFFFFF for t in ("(b|a)", "(c|a,b)", "(!a|b;c)")]
+    return {"obj": a, "cond": qs}
